@@ -16,7 +16,7 @@ def gen_random(cs, rnd, n):
     for i in range(n):
         cfg = PL.rand_cfg(rnd, "limit")
         cfg["skip"] = rnd.choice([0, 0, 1, 2, 3, 4, 5, 6])
-        cfg["take"] = rnd.choice([-1, 0, 1, 1, 2, 3, 4, 5, 6])
+        cfg["take"] = rnd.choice([-1, 0, 1, 1, 2, 3, 4, 5, 6, 9, 12])
         if cfg["group"]["k"] == "by":
             cfg["selects"] = []          # the grouped rows are then the inputs, so the relation can be stated on printed rows
         nrows = rnd.choice([0, 1, 2, 3, 4, 5, 6, 7, 9, 13, 25, 40])
